@@ -92,6 +92,7 @@ var variantNames = []string{
 	"canonical-again",
 	"dns-clusterfirstwithhostnet-host-pid-ipc",
 	"randomised-irrelevant-fields",
+	"minimal-labels-nil-annotations",
 }
 
 var dnsPolicies = []corev1.DNSPolicy{"", corev1.DNSClusterFirst, corev1.DNSClusterFirstWithHostNet, corev1.DNSDefault, corev1.DNSNone}
@@ -227,6 +228,28 @@ func realise(r row, variant int) (*inject.Config, *corev1.PodSpec, metav1.Object
 	}
 	cfg.NeverInjectSelector = mk("verif/never", r.never)
 	cfg.AlwaysInjectSelector = mk("verif/always", r.always)
+	if variant == 9 {
+		// nothing the row does not need: no other label (nil map when the inject label is absent), nil annotations when the
+		// annotation is absent; a selector "matches" through the ABSENCE of a key (DoesNotExist / NotIn on an absent key)
+		meta.Labels, meta.Annotations = nil, nil
+		if s, ok := valString(r.label, variant, i); ok {
+			meta.Labels = map[string]string{label.SidecarInject.Name: s}
+		}
+		if s, ok := valString(r.ann, variant, i/3); ok {
+			meta.Annotations = map[string]string{annotation.SidecarInject.Name: s}
+		}
+		absent := func(matches bool, which int) []metav1.LabelSelector {
+			if matches {
+				if (i+which)%2 == 0 {
+					return []metav1.LabelSelector{{MatchExpressions: []metav1.LabelSelectorRequirement{{Key: "verif/absent", Operator: metav1.LabelSelectorOpDoesNotExist}}}}
+				}
+				return []metav1.LabelSelector{{MatchExpressions: []metav1.LabelSelectorRequirement{{Key: "verif/absent", Operator: metav1.LabelSelectorOpNotIn, Values: []string{"x"}}}}}
+			}
+			return []metav1.LabelSelector{{MatchExpressions: []metav1.LabelSelectorRequirement{{Key: "verif/absent", Operator: metav1.LabelSelectorOpExists}}}}
+		}
+		cfg.NeverInjectSelector = absent(r.never, 0)
+		cfg.AlwaysInjectSelector = absent(r.always, 1)
+	}
 
 	if variant == 7 {
 		// the DNS policy that usually accompanies host networking, on every row
